@@ -107,8 +107,9 @@ impl SocksListener {
                     );
                 }
                 Err(e) => {
+                    // e.g. EMFILE while many clients are connected: keep the listener, try again shortly
                     error!("{}, Accept error: {}: cause: {:?}", self.name, e, e.cause);
-                    return;
+                    tokio::time::sleep(std::time::Duration::from_millis(100)).await;
                 }
             }
         }
